@@ -51,6 +51,7 @@ Proof.
     try (apply andb_true_iff in H; destruct H as [H1 H2]);
     try apply String.eqb_eq in H; try apply String.eqb_eq in H1;
     try apply String.eqb_eq in H2; try apply Z.eqb_eq in H2; try apply opt_str_eqb_eq in H2;
+    try apply Bool.eqb_prop in H2;
     congruence.
 Qed.
 
